@@ -193,10 +193,25 @@ func TestVerif_C13(t *testing.T) {
 		g := vk.NewStoreGen(r, 2, 50)
 		fg := &vk.FilterGen{R: r, Authors: g.Authors, TimeLo: g.TimeBase, TimeHi: g.TimeBase + 50}
 		nsess := 1 + r.IntN(3)
+		// a goroutine that survives a session counts as a leak only if it comes back: the
+		// same session is repeated once, and survivors from the same go statement must
+		// appear again (a worker that a handler starts once and keeps is not the session's)
+		type probe struct {
+			msgs   []mocrelay.ClientMsg
+			cut    int
+			ending int
+			first  vk.Goroutine
+		}
+		var repeat *probe
 		for sidx := 0; sidx < nsess; sidx++ {
 			msgs := c13Messages(r, g, fg, r.IntN(14))
 			cut := r.IntN(len(msgs) + 1)
 			ending := r.IntN(3) // 0 cancel+draining, 1 cancel+stalled, 2 inbound close+draining
+			probing := repeat
+			if probing != nil {
+				msgs, cut, ending = probing.msgs, probing.cut, probing.ending
+				repeat = nil
+			}
 			before := vk.GoroutineIDs()
 			// the session; a draining peer reads everything, a stalled one nothing
 			sctx, scancel := context.WithCancel(ctx)
@@ -277,8 +292,27 @@ func TestVerif_C13(t *testing.T) {
 			// the caller's context is still alive in the inbound-close case
 			leaked := vk.LeakedSince(before, vk.WaitBound/2)
 			if len(leaked) > 0 {
-				rep.Violation("leak/goroutine/"+leakSite(leaked[0]), fmt.Sprintf("%d goroutine(s) started by mocrelay code during the session are still alive after ServeNostr returned (%s)", len(leaked), endDesc),
-					wit(map[string]any{"goroutine": leaked[0].Stack}))
+				if probing == nil {
+					// first sighting: repeat this very session once more
+					repeat = &probe{msgs, cut, ending, leaked[0]}
+					if sidx == nsess-1 {
+						nsess++
+					}
+					rep.Count("sessions_repeated_after_a_surviving_goroutine", 1)
+				} else {
+					again := false
+					for _, g2 := range leaked {
+						if g2.CreatedBy == probing.first.CreatedBy {
+							again = true
+						}
+					}
+					if again {
+						rep.Violation("leak/goroutine/"+leakSite(leaked[0]), fmt.Sprintf("every session of this kind leaves %d goroutine(s) started by mocrelay code behind after ServeNostr returned (%s)", len(leaked), endDesc),
+							wit(map[string]any{"goroutine": leaked[0].Stack, "survivor_of_the_previous_identical_session": probing.first.Stack}))
+					}
+				}
+			} else if probing != nil {
+				rep.Count("background_goroutines_started_once", 1)
 			}
 			scancel()
 			close(stopDrain)
